@@ -142,7 +142,9 @@ class Harness(object):
             bid, ask = cfg['quotes'][a]
             self.dh.set(a, bid, ask)
         init = cfg['initial_funds']
-        self.b = q.SimulatedBroker(self.t, q.SimulatedExchange(self.t), self.dh, initial_funds=init,
+        # the exchange object may have been constructed for a later start than the broker's (its hours do not depend on it)
+        ex_start = self.t + pd.Timedelta(days=cfg.get('exchange_lead_days', 0))
+        self.b = q.SimulatedBroker(self.t, q.SimulatedExchange(ex_start), self.dh, initial_funds=init,
                                    fee_model=kit.fee_model(cfg['fee']), base_currency=cfg.get('currency', 'USD'))
 
         self.master = F(init)
@@ -157,6 +159,8 @@ class Harness(object):
         self.flags = set()
         if cfg.get('currency', 'USD') != 'USD':
             self.flags.add('non_default_base_currency')
+        if cfg.get('exchange_lead_days'):
+            self.flags.add('exchange_built_for_a_later_start')
         self._closed = {}
         self._applied = 0
         self.pclock = {}         # model of each portfolio's clock: creation, transfers and fills move it forward
@@ -278,6 +282,23 @@ class Harness(object):
         self.pclock[pid] = max(self.pclock[pid], later)
         self.flags.add('direct_future_deposit')
 
+    def op_pfill(self, op, before):
+        """A position booked directly on a broker-owned portfolio (an existing holding transferred in), not through an
+        order: it is a fill like any other for cash, holdings and later re-marks."""
+        _, pi, ai, qty = op
+        pid = self._pid(pi)
+        if pid is None or qty == 0:
+            return
+        a = self.assets[ai % len(self.assets)]
+        port = self.b.portfolios[pid]
+        bid, ask = self.dh.q[a]
+        dt = max(self.b.current_dt, port.current_dt)
+        oid = 'direct%d' % len(self.txlog)
+        self.valid_ops += 1
+        self.nsub[oid] = 1
+        port.transact_asset(self.q.Transaction(a, qty, dt, ask if qty > 0 else bid, oid, commission=0.0))
+        self.flags.add('position_booked_directly')
+
     def op_order(self, op, before):
         _, pi, ai, how, mag, sign = op[:6]
         variant = op[6] if len(op) > 6 else None
@@ -307,6 +328,9 @@ class Harness(object):
         qty = int(qty)
         if qty == 0:
             qty = 1
+        if variant == 'zero':
+            qty = 0                 # an order sized down to nothing: still accepted, still filled (a zero-amount event)
+            self.flags.add('zero_quantity_order')
         order = self.q.Order(self.b.current_dt, a, qty)
         self.valid_ops += 1
         unquoted = None
@@ -472,9 +496,10 @@ class Harness(object):
     BAD_KINDS = ['neg_asub', 'neg_awd', 'over_awd', 'neg_psub', 'over_psub', 'unk_psub', 'neg_pwd', 'over_pwd',
                  'unk_pwd', 'dup', 'dup_int', 'unk_order', 'cur', 'cur_ctor', 'neg_init', 'unk_get_cash', 'unk_get_mv',
                  'unk_get_equity', 'unk_get_dict', 'early_sub', 'early_wd', 'early_txn', 'early_mark', 'neg_mark',
-                 'p_neg_sub', 'p_neg_wd', 'p_over_wd', 'multi_unk_neg', 'lead_psub', 'lead_pwd', 'stale_update']
+                 'p_neg_sub', 'p_neg_wd', 'p_over_wd', 'multi_unk_neg', 'lead_psub', 'lead_pwd', 'stale_update', 'dup_named',
+                 'stale_mark']
 
-    BAD_CODES = ['XYZ', 'gbp', 'Eur', 'usd', 'CHF', '', 'US', 'USD ']
+    BAD_CODES = ['XYZ', 'gbp', 'Eur', 'usd', 'CHF', '', 'US', 'USD ', None]
 
     def op_bad(self, op, before):
         """An invalid request: must raise the documented error type and leave the deep snapshot unchanged."""
@@ -500,11 +525,11 @@ class Harness(object):
         elif kind == 'unk_order':
             call, exp = (lambda: b.submit_order('nope', q.Order(b.current_dt, self.assets[0], 5))), KE
         elif kind == 'cur':
-            code = self.BAD_CODES[int(x * 100) % len(self.BAD_CODES)]
-            call = lambda: b.get_account_cash_balance(code)
+            code = self.BAD_CODES[(2 * pi + (1 if x >= 1 else 0) + (3 if x < 0.005 else 0) + int(x * 100)) % (len(self.BAD_CODES) - 1)]
+            call = lambda: b.get_account_cash_balance(code)          # (None is a valid argument here: all balances)
         elif kind == 'cur_ctor':
             # codes outside the supported list, incl. ones that differ from a supported code only in case
-            code = self.BAD_CODES[int(x * 100) % len(self.BAD_CODES)]
+            code = self.BAD_CODES[(2 * pi + (1 if x >= 1 else 0) + (3 if x < 0.005 else 0) + int(x * 100)) % len(self.BAD_CODES)]
             call = lambda: q.SimulatedBroker(b.current_dt, b.exchange, self.dh, base_currency=code,
                                              initial_funds=1000.0 if int(x) % 2 else 0.0)
         elif kind == 'neg_init':
@@ -551,6 +576,17 @@ class Harness(object):
                 self.flags.add('over_pwd_with_negative_cash')
         elif kind == 'dup':
             call = lambda: b.create_portfolio(pid)
+        elif kind == 'dup_named':
+            call = lambda: b.create_portfolio(pid, name='Another name %r' % x)
+        elif kind == 'stale_mark':
+            # a late quote stamped before the position's last price time but not before the portfolio's own clock
+            # (re-marks advance the position's clock only): refused by the position, and the price must stay
+            late = [(a_, p_) for a_, p_ in port.pos_handler.positions.items() if p_.current_dt > port.current_dt]
+            if not late:
+                return
+            a_, p_ = late[0]
+            call = lambda: port.update_market_value_of_asset(a_, p_.current_price * 1.7 + 0.01, port.current_dt)
+            self.flags.add('late_quote_older_than_last_mark')
         elif kind == 'dup_int':
             if '1234' not in b.portfolios:
                 return
@@ -654,7 +690,8 @@ class Harness(object):
             old = self.net[pid].get(txn.asset, 0)
             new = old + int(txn.quantity)
             self.net[pid][txn.asset] = new
-            self.last[pid][txn.asset] = F(float(txn.price))
+            if int(txn.quantity) != 0:          # a zero-quantity fill books nothing, so it is no price observation either
+                self.last[pid][txn.asset] = F(float(txn.price))
             self.filled[txn.order_id] = self.filled.get(txn.order_id, 0) + 1
             for i_, x_ in enumerate(self.pend[pid]):
                 if x_[0] == txn.order_id:
@@ -933,6 +970,7 @@ def config_st(draw, fees=True):
         'initial_funds': draw(st.one_of(st.floats(1e3, 1e6).map(lambda x: _r(x, 7)), st.sampled_from([0.0, 1.0, 1e6, 0.5]))),
         'fee': fee,
         'currency': draw(st.sampled_from(['USD', 'USD', 'GBP', 'EUR'])),
+        'exchange_lead_days': draw(st.sampled_from([0, 0, 0, 12, 400])),
     }
 
 
@@ -1029,7 +1067,7 @@ def make_machine(mode, rec, part):
 
         @precondition(lambda self: self.h is not None and self.h.pids)
         @rule(p=st.integers(0, 3), a=st.integers(0, 4), mag=st.sampled_from([1, 2, 7, 100]), sign=st.sampled_from([1, -1]),
-              variant=st.sampled_from(['resubmit', 'late_quote', 'late_quote']))
+              variant=st.sampled_from(['resubmit', 'late_quote', 'late_quote', 'zero']))
         def order_variant(self, p, a, mag, sign, variant):
             self._do(['order', p, a, 'any', mag, sign, variant])
 
@@ -1062,6 +1100,11 @@ def make_machine(mode, rec, part):
         @rule(p=st.integers(0, 3), minutes=st.sampled_from([0, 1, 30, 600]), amount=st.sampled_from([0.0, 1.0, 250.0, 1e4]))
         def direct_deposit(self, p, minutes, amount):
             self._do(['pdeposit', p, minutes, amount])
+
+        @precondition(lambda self: self.h is not None and self.h.pids)
+        @rule(p=st.integers(0, 3), a=st.integers(0, 4), qty=st.sampled_from([1, 10, 250, -3, -40]))
+        def direct_fill(self, p, a, qty):
+            self._do(['pfill', p, a, qty])
 
         @rule(a=st.integers(0, 4), qt=quote_st())
         def quote(self, a, qt):
